@@ -187,13 +187,29 @@ func checkClosers(info *types.Info, body *ast.BlockStmt, acqFilter func(c *ast.C
 						}
 					}
 				}
-				for _, k := range ks {
-					if toLocalIdent && exprStr(ast.Unparen(rhs)) != k {
-						out = out.without(k) // wrapped into a new local value (struct literal, constructor call): ownership moves
-					} else if !toLocalIdent {
+				// does the assignment hand the resource over?  yes if it is stored into something that is not a
+				// plain local (field, element, outer variable), aliased as a whole, put into a literal, or wrapped
+				// by a constructor-like call / a call whose result is itself closable; a helper that merely USES
+				// the resource (x, err := lookup(reader, ...)) does not take it over
+				handsOver := !toLocalIdent
+				if toLocalIdent {
+					switch rx := ast.Unparen(rhs).(type) {
+					case *ast.Ident:
+						handsOver = true // plain alias: stop tracking (conservative: no report)
+					case *ast.CompositeLit, *ast.UnaryExpr:
+						handsOver = true
+					case *ast.CallExpr:
+						nm := calleeShortName(info, rx)
+						if strings.HasPrefix(nm, "New") || strings.HasPrefix(nm, "new") || (i < len(s.Lhs) && hasCloseMethod(info.TypeOf(s.Lhs[i]))) {
+							handsOver = true
+						}
+					default:
+						handsOver = true
+					}
+				}
+				if handsOver {
+					for _, k := range ks {
 						out = out.without(k)
-					} else {
-						out = out.without(k) // plain alias: stop tracking (conservative: no report)
 					}
 				}
 			}
